@@ -42,6 +42,9 @@ func genC20(fam string, seed uint64, free bool) *world.Scenario {
 	sc.LatMin, sc.LatMax = 0, world.Dur(200*time.Microsecond)
 	// one shared sensor and curve, plus a PID curve and a function curve over both
 	sc.Sensors = append(sc.Sensors, world.SensorSpec{ID: "s0", Kind: kernel.Pick(r, "hwmon", "file"), Prog: world.TempProg{Kind: "ramp", Base: 30000, Delta: 500, Every: ms(100), Lo: 0, Hi: 90000}, Chip: chip, TempN: 1})
+	if sc.Sensors[0].Kind == "file" && kernel.NewRand(seed, "c20.home").Bool(0.5) {
+		sc.Sensors[0].HomeRelative = true // configured as "~/..."
+	}
 	sc.Curves = append(sc.Curves,
 		world.CurveSpec{ID: "shared", Kind: "linear", Sensor: "s0", Min: 20, Max: 80},
 		world.CurveSpec{ID: "pidc", Kind: "pid", Sensor: "s0", PID: &world.PidSpec{SetPoint: 45, P: -0.05, I: -0.005, D: -0.005}},
